@@ -5,6 +5,7 @@ import (
 	"go/ast"
 	"go/token"
 	"go/types"
+	"golang.org/x/tools/go/ssa"
 	"math/bits"
 	"strings"
 
@@ -32,6 +33,9 @@ func checkC07(c *Ctx, r *Report) {
 	checkQRZigZag(c, r)
 	checkQRTerminate(c, r)
 	checkQRBasicPatterns(c, r)
+	checkQRFinalBuild(c, r)
+	// Reed-Solomon parity of the QR field: Encode folded on complete small domains (same obligations as under C04)
+	checkRSEncodeQR(c, r)
 	checkQRVersionPlacement(c, r)
 	checkQRBasicPlacement(c, r)
 	r.Assume("ISO/IEC 18004 Table 9 as transcribed in checker/ref_qr.go (cross-validated by the geometry-derived totals: a wrong transcription would make data/blocks non-integral or disagree with the published capacities)")
@@ -305,15 +309,27 @@ func checkTypeInfoExpr(c *Ctx, r *Report) {
 		return
 	}
 	params := paramObjs(p, fd)
+	// the 5-bit data term: the variable handed to calculateBCHCode, assigned once
 	var rhs ast.Expr
+	var dataObj types.Object
+	for _, call := range findCalls(p, fd.Body, func(o types.Object) bool { return isFuncNamed(o, "qrcode/encoder", "calculateBCHCode") }) {
+		if len(call.Args) == 2 {
+			dataObj = identObj(p, call.Args[0])
+		}
+	}
+	nAssign := 0
 	ast.Inspect(fd.Body, func(n ast.Node) bool {
-		if as, ok := n.(*ast.AssignStmt); ok && len(as.Lhs) == 1 && len(as.Rhs) == 1 {
-			if id, ok := as.Lhs[0].(*ast.Ident); ok && id.Name == "typeInfo" {
+		if as, ok := n.(*ast.AssignStmt); ok && len(as.Lhs) == 1 && len(as.Rhs) == 1 && dataObj != nil {
+			if id, ok := as.Lhs[0].(*ast.Ident); ok && (p.TypesInfo.Defs[id] == dataObj || p.TypesInfo.Uses[id] == dataObj) {
 				rhs = as.Rhs[0]
+				nAssign++
 			}
 		}
 		return true
 	})
+	if nAssign != 1 {
+		rhs = nil
+	}
 	key := "qrcode/encoder.makeTypeInfoBits.typeInfo"
 	if rhs == nil || len(params) < 2 {
 		r.Undecided("T-BCHCONST", key, c.pos(fd.Pos()), "the 5-bit format data term was not found")
@@ -1339,11 +1355,11 @@ func checkQRVersionPlacement(c *Ctx, r *Report) {
 					return nil, false
 				}}
 				env := map[types.Object]*Val{li.v: vint(i), lj.v: vint(j)}
-				// bitIndex is loop-carried; bind it to a dummy
-				ast.Inspect(fd.Body, func(n ast.Node) bool {
-					if as, ok := n.(*ast.AssignStmt); ok && as.Tok == token.DEFINE {
-						if id, ok := as.Lhs[0].(*ast.Ident); ok && id.Name == "bitIndex" {
-							env[p.TypesInfo.Defs[id]] = vint(17 - (i*3 + j))
+				// the bit index is loop-carried (counted down in the inner loop); bind it to the value it has there
+				ast.Inspect(loops[1].Body, func(n ast.Node) bool {
+					if dec, ok := n.(*ast.IncDecStmt); ok && dec.Tok == token.DEC {
+						if o := identObj(p, dec.X); o != nil && o != li.v && o != lj.v {
+							env[o] = vint(17 - (i*3 + j))
 						}
 					}
 					return true
@@ -1668,10 +1684,11 @@ func checkQRInterleave(c *Ctx, r *Report) {
 				}
 				switch {
 				case isMethodNamed(callee, "", "BitArray", "GetSizeInBytes"):
-					if id, isI := call.Fun.(*ast.SelectorExpr).X.(*ast.Ident); isI && id.Name == "result" {
-						return vint(int64(len(emitted))), true
+					// the size of the input bits (the first parameter) or of the stream built so far
+					if identObj(ep, call.Fun.(*ast.SelectorExpr).X) == paramObjs(ep, efd)[0] {
+						return vint(int64(numData)), true
 					}
-					return vint(int64(numData)), true
+					return vint(int64(len(emitted))), true
 				case isMethodNamed(callee, "", "BitArray", "ToBytes"):
 					o, dst, n := rr.expr(call.Args[0]), rr.expr(call.Args[1]), rr.expr(call.Args[3])
 					if o.K != VInt || n.K != VInt || dst.K != VList || o.I%8 != 0 || int64(len(dst.L)) < n.I {
@@ -2026,8 +2043,9 @@ func checkQRZigZag(c *Ctx, r *Report) {
 				if x.K != VInt || y.K != VInt || x.I < 0 || y.I < 0 || x.I >= dim || y.I >= dim {
 					rpfFail("a module outside the symbol is read")
 				}
-				recv := exprString(call.Fun.(*ast.SelectorExpr).X)
-				if strings.Contains(recv, "functionPattern") {
+				// which matrix is asked: the function-pattern map built for the version, or the image
+				recv := rr.expr(call.Fun.(*ast.SelectorExpr).X)
+				if recv.K == VStruct && recv.Fields["tag"] != nil && recv.Fields["tag"].S == "buildFunctionPattern" {
 					return vbool(refQRIsFunction(v, int(x.I), int(y.I))), true
 				}
 				read = append(read, [2]int64{x.I, y.I})
@@ -2292,4 +2310,76 @@ func checkQRBasicPatterns(c *Ctx, r *Report) {
 		}
 		r.Check(bad == "", "S-QRBASIC", key, pos, bad)
 	}
+}
+
+// M-QRFINAL: the symbol handed back is the one built with the mask that is reported
+func checkQRFinalBuild(c *Ctx, r *Report) {
+	r.Rule("M-QRFINAL", "Encoder_encode: every successful return is dominated by one MatrixUtil_buildMatrix call - made unconditionally after the mask is settled, whether it was chosen by penalty or given by the hint - on the matrix that SetMatrix stores, with the mask pattern that SetMaskPattern stores and the bits / level / version the mask choice was made for; the QRCode never leaves with a matrix built for another mask or not built at all", 1)
+	f := c.ssaFunc("qrcode/encoder", "Encoder_encode")
+	key := "qrcode/encoder.Encoder_encode"
+	if f == nil {
+		r.AnchorLost("M-QRFINAL", key, "function not found")
+		return
+	}
+	r.Analysed(key)
+	var builds, chooses []*ssa.Call
+	var setMatrix, setMask *ssa.Call
+	for _, b := range f.Blocks {
+		for _, in := range b.Instrs {
+			call, ok := in.(*ssa.Call)
+			if !ok {
+				continue
+			}
+			g := call.Call.StaticCallee()
+			if g == nil {
+				continue
+			}
+			switch g.Name() {
+			case "MatrixUtil_buildMatrix":
+				builds = append(builds, call)
+			case "chooseMaskPattern":
+				chooses = append(chooses, call)
+			case "SetMatrix":
+				setMatrix = call
+			case "SetMaskPattern":
+				setMask = call
+			}
+		}
+	}
+	bad := ""
+	switch {
+	case len(builds) != 1:
+		bad = fmt.Sprintf("%d MatrixUtil_buildMatrix calls", len(builds))
+	case setMatrix == nil || setMask == nil:
+		bad = "SetMatrix / SetMaskPattern not called"
+	case len(builds[0].Call.Args) != 5:
+		bad = "unexpected signature of MatrixUtil_buildMatrix"
+	}
+	if bad == "" {
+		bm := builds[0]
+		for _, ret := range returnsOf(f) {
+			if len(ret.Results) != 2 {
+				continue
+			}
+			if cst, ok := unspill(ret.Results[1], ret).(*ssa.Const); !ok || !cst.IsNil() {
+				continue
+			}
+			if !(bm.Block() == ret.Block() || bm.Block().Dominates(ret.Block())) {
+				bad = fmt.Sprintf("the successful return at %s can be reached without building the matrix", c.pos(ret.Pos()))
+			}
+		}
+		last := func(call *ssa.Call) ssa.Value { return call.Call.Args[len(call.Call.Args)-1] }
+		if bad == "" && bm.Call.Args[4] != last(setMatrix) {
+			bad = "the matrix built is not the matrix stored in the QRCode"
+		}
+		if bad == "" && bm.Call.Args[3] != last(setMask) {
+			bad = "the mask pattern the matrix is built with is not the one stored in the QRCode"
+		}
+		for _, ch := range chooses {
+			if bad == "" && (len(ch.Call.Args) != 4 || ch.Call.Args[0] != bm.Call.Args[0] || ch.Call.Args[1] != bm.Call.Args[1] || ch.Call.Args[2] != bm.Call.Args[2]) {
+				bad = "the mask is chosen for other bits / level / version than the matrix is built from"
+			}
+		}
+	}
+	r.Check(bad == "", "M-QRFINAL", key, c.pos(f.Pos()), bad)
 }
